@@ -3,7 +3,8 @@
      cfg            : (cfg table|stream plain|inc <max_id> (d trailer...) (ids n...) <top>) -- xref format, and the
                       state of the document object before the save: max_id, trailer, numbers of the objects written,
                       largest object number (plain) or `-` (incremental)
-     doc, prev      : read by the harness only
+     doc            : read by the harness only
+     prev           : the previous bytes of an incremental save (`x` = none for a plain one); `full` begins with them
      full           : the implementation's complete output for this document (perfect sink), as one atom or as
                       (f x.. x.. ...), the concatenation of short atoms
      pad            : read by the harness only (large streams it adds to doc)
@@ -133,15 +134,15 @@ Definition size_of (st : sstate) : Z :=
 Definition resave_same (mode : xmode) (st st' : sstate) : bool :=
   match mode with XTable => true | XStream => (s_max_id st =? s_max_id st')%N end.
 
-Record cfg := { c_mode : xmode; c_state : sstate; c_ids : list N; c_top : option N }.
+Record cfg := { c_mode : xmode; c_inc : bool; c_state : sstate; c_ids : list N; c_top : option N }.
 (* top: the largest object number of a plain document, `-` for an incremental one (SaveState.raise_max_id) *)
 Definition cfg_of_sx (x : sx) : option cfg :=
   match x with
-  | SL [t; m; _; mx; tr; SL (ti :: ids); top] =>
+  | SL [t; m; k; mx; tr; SL (ti :: ids); top] =>
     if is_id t "cfg" && is_id ti "ids" then
       do mx <- as_N mx; do tr <- dict_of_sx tr; do ids <- omap as_N ids;
       do top <- (if is_id top "-" then Some None else option_map Some (as_N top));
-      Some {| c_mode := if is_id m "stream" then XStream else XTable;
+      Some {| c_mode := if is_id m "stream" then XStream else XTable; c_inc := is_id k "inc";
               c_state := {| s_max_id := mx; s_trailer := tr |}; c_ids := ids; c_top := top |}
     else None
   | _ => None
@@ -152,9 +153,18 @@ Definition c_raised (c : cfg) : sstate := raise_max_id (c_top c) (c_state c).
 Definition tail_of_sx (x : sx) : option script :=
   match x with SL (t :: l) => if is_id t "t" then items_of_sx l else None | _ => None end.
 
-Definition run_job (c : cfg) (pre post : list bytes) (job : sx) : option sx :=
+(* [iprev] = Some prev for IncrementalDocument::save_to: the previous bytes, handed to the sink around the counter in ONE
+   write_all before [pre] ([save_inc_with]; the state printed is new_document's, the previous bytes stay by construction);
+   None for Document::save_to ([save_with]) *)
+Definition run_job (c : cfg) (iprev : option bytes) (pre post : list bytes) (job : sx) : option sx :=
   let go := fun (positional : bool) (s : script) =>
-    save_with (if positional then qwrite_all else write_all) (c_mode c) (c_ids c) (c_top c) pre post (c_state c) s in
+    let wa := if positional then qwrite_all else write_all in
+    match iprev with
+    | Some p =>
+      let '(r, d, st') := save_inc_with wa (c_mode c) (c_ids c) pre post {| is_prev := p; is_new := c_state c |} s in
+      (r, d, is_new st')
+    | None => save_with wa (c_mode c) (c_ids c) (c_top c) pre post (c_state c) s
+    end in
   let row := fun (res : wres * bytes * sstate) =>
     let '(r, d, st') := res in
     SL [rc_to_sx r; sx_N (N.of_nat (length d)); sx_N (s_max_id st'); sx_Z (size_of st');
@@ -289,7 +299,7 @@ Definition is_path_job (job : sx) : bool :=
 
 Definition run (x : sx) : sx :=
   match x with
-  | SL (t :: cf :: _doc :: _prev :: full :: cut :: SL (tc :: sizes) :: job :: _pad) =>
+  | SL (t :: cf :: _doc :: prev :: full :: cut :: SL (tc :: sizes) :: job :: _pad) =>
     if is_id t "case" && is_id tc "chunks" then
       match cfg_of_sx cf, bytes_of_parts full, as_N cut, omap as_N sizes with
       | Some c, Some full, Some cut, Some sizes =>
@@ -298,7 +308,21 @@ Definition run (x : sx) : sx :=
         else
         let '(a, b) := cut_at full cut in
         let sz := map small sizes in
-        match run_job c (chunked sz a) (chunked sz b) job with
+        if c_inc c then
+          (* the complete output of an incremental save begins with the previous bytes *)
+          match as_bytes prev with
+          | Some p =>
+            let '(p', a') := cut_at a (N.of_nat (length p)) in
+            if bytes_eqb p p' then
+              match run_job c (Some p) (chunked sz a') (chunked sz b) job with
+              | Some r => r
+              | None => sx_id "badcase"
+              end
+            else sx_id "badcase"
+          | None => sx_id "badcase"
+          end
+        else
+        match run_job c None (chunked sz a) (chunked sz b) job with
         | Some r => r
         | None => sx_id "badcase"
         end
